@@ -27,13 +27,13 @@ use std::process::{Command, Stdio};
 use vibrato::trainer::Corpus;
 use vibrato::{Dictionary, SystemDictionaryBuilder, Tokenizer};
 
-struct Env {
-    bin: PathBuf,
-    work: PathBuf,
+pub(crate) struct Env {
+    pub(crate) bin: PathBuf,
+    pub(crate) work: PathBuf,
 }
 
 /// (status, stdout): status `ok` (exit 0), `panic` (exit 101), `err` (any other exit code), `killed`.
-fn run_bin(env: &Env, name: &str, args: &[String], stdin: Option<&[u8]>) -> (&'static str, Vec<u8>) {
+pub(crate) fn run_bin(env: &Env, name: &str, args: &[String], stdin: Option<&[u8]>) -> (&'static str, Vec<u8>) {
     let mut cmd = Command::new(env.bin.join(name));
     cmd.args(args).current_dir(&env.work).stderr(Stdio::null()).stdout(Stdio::piped());
     cmd.stdin(if stdin.is_some() { Stdio::piped() } else { Stdio::null() });
@@ -64,19 +64,19 @@ fn run_bin(env: &Env, name: &str, args: &[String], stdin: Option<&[u8]>) -> (&'s
     (s, out)
 }
 
-fn p(env: &Env, f: &str) -> String {
+pub(crate) fn p(env: &Env, f: &str) -> String {
     env.work.join(f).to_string_lossy().to_string()
 }
 
-fn write(env: &Env, f: &str, data: &[u8]) {
+pub(crate) fn write(env: &Env, f: &str, data: &[u8]) {
     std::fs::write(env.work.join(f), data).expect("write scratch file");
 }
 
-fn read(env: &Env, f: &str) -> Vec<u8> {
+pub(crate) fn read(env: &Env, f: &str) -> Vec<u8> {
     std::fs::read(env.work.join(f)).unwrap_or_default()
 }
 
-fn clean(work: &Path) {
+pub(crate) fn clean(work: &Path) {
     if let Ok(rd) = std::fs::read_dir(work) {
         for e in rd.flatten() {
             let _ = std::fs::remove_file(e.path());
@@ -84,7 +84,7 @@ fn clean(work: &Path) {
     }
 }
 
-fn zstd_of(data: &[u8]) -> Vec<u8> {
+pub(crate) fn zstd_of(data: &[u8]) -> Vec<u8> {
     zstd::encode_all(data, 3).expect("zstd")
 }
 
@@ -101,7 +101,7 @@ fn status_of<T>(r: &Option<Result<T, ()>>) -> &'static str {
     }
 }
 
-fn image_of(d: &Dictionary) -> Vec<u8> {
+pub(crate) fn image_of(d: &Dictionary) -> Vec<u8> {
     let mut v = vec![];
     d.write(&mut v).unwrap();
     v
